@@ -35,6 +35,8 @@ MOD = "vf.checks.c06"
 def keyspace(kind, n):
     if kind == "int":
         return list(range(n))
+    if kind == "bigint":
+        return [10 ** 6 + i for i in range(n)]     # beyond the small-int cache: equal keys are different objects
     ks = []
     for i in range(n):
         ks.append([i, f"k{i}", ("t", i)][i % 3])
@@ -63,7 +65,7 @@ def gen_case(rng, tier, index):
     for _ in range(nops):
         o = rng.choices(names, [w[n] for n in names])[0]
         ops.append([o, rng.randrange(nkeys), rng.randrange(1000), rng.randrange(1 << 16)])
-    return {"cap": cap, "nkeys": nkeys, "keys": "int" if index % 4 else "mixed", "ops": ops}
+    return {"cap": cap, "nkeys": nkeys, "keys": ("int" if index % 4 != 1 else "bigint") if index % 4 else "mixed", "ops": ops}
 
 
 def shrinkable(case):
@@ -183,10 +185,14 @@ def run_case(case, res):
     from windpyutils.structures.caches import LRUCache
     cap = case["cap"]
     keys = keyspace(case["keys"], case["nkeys"])
+    # a second, independent cache lives next to the one under test (state shared between instances would show)
+    comp = LRUCache(2)
+    comp["companion-a"] = "x"
+    comp["companion-b"] = "y"
     c = LRUCache(cap)
     m = Model(cap)
     for step, (op, ki, v, aux) in enumerate(case["ops"]):
-        k = keys[ki % len(keys)]
+        k = common.fresh(keys[ki % len(keys)])     # an equal key, not the identical object
         n = len(m.order)
         desc = f"{op}({k!r})"
         adopt, touched = None, None
@@ -357,6 +363,10 @@ def run_case(case, res):
         observe(c, m, desc, res, adopt, touched)
         if len(m.order) >= 2:
             res.seen((cap, tuple(map(repr, m.order)), tuple(repr(m.val[k2]) for k2 in m.order)))
+    g = outcome(lambda: (sorted(comp), len(comp), comp["companion-a"], comp["companion-b"]))
+    if g != ("ok", (["companion-a", "companion-b"], 2, "x", "y")):
+        raise Violation("other-instance-disturbed", f"a second cache that holds companion-a/companion-b and was not touched during the "
+                        f"history answers (keys, len, values) -> {g}", {})
 
 
 def plan(tier, seed):
